@@ -44,6 +44,9 @@ class FnAnalysis(ast.NodeVisitor):
         if isinstance(e, ast.Attribute):
             return e.attr in self.set_attrs
         if isinstance(e, ast.BinOp) and isinstance(e.op, (ast.BitOr, ast.BitAnd, ast.Sub, ast.BitXor)):
+            # set algebra on dict views (d.keys() & e.keys(), d.items() - ...) returns a set
+            if any(isinstance(x, ast.Call) and isinstance(x.func, ast.Attribute) and x.func.attr in ("keys", "items") and not x.args for x in (e.left, e.right)):
+                return True
             return self.unordered(e.left) or self.unordered(e.right)
         if isinstance(e, ast.IfExp):
             return self.unordered(e.body) or self.unordered(e.orelse)
@@ -65,10 +68,15 @@ class FnAnalysis(ast.NodeVisitor):
                 return True           # the hash order is materialised: the result is an order-tainted sequence / mapping
             if name in self.set_attrs:            # method returning a set
                 return True
+        if isinstance(e, ast.Dict):
+            # {**a, **b}: insertion order follows the merged mappings
+            return any(k is None and self.unordered(v) for k, v in zip(e.keys, e.values))
         if isinstance(e, ast.DictComp):
             return any(self.unordered(g.iter) for g in e.generators)       # insertion order follows the set
         if isinstance(e, (ast.GeneratorExp, ast.ListComp)):
-            return any(self.unordered(g.iter) for g in e.generators)
+            # iterating a hash-ordered value, or producing elements that are themselves hash-ordered (an ordered container of unordered
+            # things is tainted too: whoever picks an element gets a hash-ordered value)
+            return any(self.unordered(g.iter) for g in e.generators) or self.unordered(e.elt)
         return False
 
     # ---- consumers -------------------------------------------------------------------------------------------------
